@@ -41,7 +41,7 @@ def coq_tables(pr):
 
 def coq_case(pr, out, code):
     cs, ifs = coq_tables(pr)
-    return "((%s, %s, %s, %s, %d%%nat) : case)" % (cs, ifs, G.coq_prog(pr), coq_string(out), code)
+    return "((%s, %s, %s, %s, %d%%nat) : case)" % (cs, ifs, G.coq_prog(pr), coq_string(G.ascii_only(out)), code)
 
 
 # ----------------------------------------------------------------------------- enumerated exit paths
@@ -361,6 +361,23 @@ def hierarchy_programs():
             inner = ["try", [echo("t;"), ["throw", ["new", cls, lit("m")]], echo("never")], catches, [echo(";f")]]
             main = [["try", [inner, echo(";after")], [["Exception", None, [echo(";outer")]]], [echo(";F")]]]
             out.append({"classes": classes, "ifaces": ifaces, "funcs": [], "main": main})
+    # user types whose NAMES resemble the built-in roots (suffix / prefix / other case of Throwable, Exception, Error): a type
+    # test that goes by the spelling of a name instead of the declared hierarchy takes them for the root.  The look-alike
+    # clause comes first, the thrown object is unrelated to it (or related, as a control); the right clause / the outer try follows.
+    ifaces = [["RetryableThrowable", []], ["Retrythrowable", []], ["FOOTHROWABLE", []], ["ThrowableLike", []], ["NotAThrowable", ["ThrowableLike"]],
+              ["AppException", []], ["AnError", []], ["ErrorLike", []]]
+    classes = [["DomainThrowable", "Exception", []], ["MyException", "Exception", ["AppException"]], ["ExceptionX", "Exception", []],
+               ["MyError", "Exception", ["AnError"]], ["Errorish", "Exception", []], ["Plain", "Exception", []],
+               ["Retry", "Exception", ["RetryableThrowable"]], ["SubDomain", "DomainThrowable", ["NotAThrowable"]]]
+    lookalikes = ["RetryableThrowable", "Retrythrowable", "FOOTHROWABLE", "ThrowableLike", "NotAThrowable", "DomainThrowable", "AppException",
+                  "MyException", "ExceptionX", "AnError", "ErrorLike", "MyError", "Errorish"]
+    for cls in ("Plain", "Retry", "SubDomain", "MyError", "ExceptionX"):
+        for la in lookalikes:
+            for rest in (["Plain", "Exception"], ["Throwable"], []):
+                catches = [[ty, "e", [echo("<%s>" % ty), ["echo", ["class", var("e")]]]] for ty in [la] + rest]
+                inner = ["try", [echo("t;"), ["throw", ["new", cls, lit("m")]], echo("never")], catches, [echo(";f")]]
+                main = [["try", [inner, echo(";after")], [["Exception", None, [echo(";outer")]]], [echo(";F")]]]
+                out.append({"classes": classes, "ifaces": ifaces, "funcs": [], "main": main})
     return out
 
 
@@ -376,12 +393,12 @@ class Gen5(G.Gen):
             ext = [x[0] for x in self.ifaces if r.random() < 0.4]
             if self.ifaces and r.random() < 0.5 and self.ifaces[-1][0] not in ext:
                 ext.append(self.ifaces[-1][0])                      # chains: the previous interface is a parent
-            self.ifaces.append(["I%d" % i, ext])
+            self.ifaces.append(["I%d%s" % (i, r.choice(["", "", "", "Throwable", "Exception", "Error", "throwable"])), ext])
         self.classes = []
         for i in range(r.randint(1, 5)):
             parent = "Exception" if not self.classes or r.random() < 0.4 else r.choice(self.classes)[0]
             impls = [x[0] for x in self.ifaces if r.random() < 0.35]
-            self.classes.append(["X%d" % i, parent, impls])
+            self.classes.append(["X%d%s" % (i, r.choice(["", "", "", "Throwable", "Exception", "Error"])), parent, impls])
         self.trydepth = 0
 
     def catch_types(self):
